@@ -1,6 +1,10 @@
 package props
 
 import (
+	"fmt"
+	"strconv"
+
+	"github.com/caddyserver/caddy/v2/caddyconfig/caddyfile"
 	"testing"
 	"time"
 
@@ -24,6 +28,7 @@ type c17Sample struct {
 	Reads      int     `json:"throttled_reads"`
 	SimTime    string  `json:"simulated_time"`
 	FirstReads []string `json:"first_read_attempts"`
+	Caddyfile  string   `json:"configured_by_caddyfile,omitempty"`
 }
 
 func init() {
@@ -78,12 +83,50 @@ func runC17(t *testing.T, e *worlds.Env, tier string) (bool, any) {
 		if latencyOnly && latency == 0 {
 			latency = time.Duration(tp.Pick("latency-only-ms", 300, 1, 2000)) * time.Millisecond
 		}
+		// rates below one byte per second are rates too
+		if rate == 1 && tp.Prob(1, 2, "fractional-rate") {
+			rate = 0.5
+		}
+		if trate == 5 && tp.Prob(1, 2, "fractional-trate") {
+			trate = 0.25
+		}
 		h := &l4throttle.Handler{ReadBytesPerSecond: rate, ReadBurstSize: burst, TotalReadBytesPerSecond: trate, TotalReadBurstSize: tburst, Latency: caddy.Duration(latency)}
+		if tp.Prob(1, 3, "caddyfile") {
+			// the same configuration given as Caddyfile text and read by the shipped parser
+			text := "throttle {\n"
+			if rate > 0 {
+				text += "\tread_bytes_per_second " + strconv.FormatFloat(rate, 'f', -1, 64) + "\n"
+			}
+			if burst > 0 {
+				text += "\tread_burst_size " + strconv.Itoa(burst) + "\n"
+			}
+			if trate > 0 {
+				text += "\ttotal_read_bytes_per_second " + strconv.FormatFloat(trate, 'f', -1, 64) + "\n"
+			}
+			if tburst > 0 {
+				text += "\ttotal_read_burst_size " + strconv.Itoa(tburst) + "\n"
+			}
+			if latency > 0 {
+				text += "\tlatency " + latency.String() + "\n"
+			}
+			text += "}\n"
+			h = &l4throttle.Handler{}
+			if err := h.UnmarshalCaddyfile(caddyfile.NewTestDispenser(text)); err != nil {
+				panic(fmt.Sprintf("caddyfile %q: %v", text, err))
+			}
+			sample.Caddyfile = text
+		}
 		if err := h.Provision(e.Ctx); err != nil {
 			panic(err)
 		}
 		h.VerifSetLogger(e.Log)
-		burst, tburst = h.ReadBurstSize, h.TotalReadBurstSize // defaults applied by Provision
+		// the documented default: a rate without a burst size gets a burst of rate+1 bytes
+		if rate > 0 && burst == 0 {
+			burst = int(rate) + 1
+		}
+		if trate > 0 && tburst == 0 {
+			tburst = int(trate) + 1
+		}
 		recBuf := tp.Pick("rec-maxbuf", 4096, 1, 64, 65536)
 		// effective batch per read
 		batch := recBuf
